@@ -75,6 +75,8 @@ theorem pend_spec (cfg : Cfg) (cache : Mod → Par → Entry) (tr : List Obs) :
       | deactivate s => exact pendSpec_snoc cfg tr c l _ (ih c l h) (by simp [resets])
       | ident => exact pendSpec_snoc cfg tr c l _ (ih c l h) (by simp [resets])
       | disconnect => exact pendSpec_snoc cfg tr c l _ (ih c l h) (by simp [resets])
+      | rw w m p e => exact pendSpec_snoc cfg tr c l _ (ih c l h) (by simp [resets])
+      | malformed a s => exact pendSpec_snoc cfg tr c l _ (ih c l h) (by simp [resets])
     | reply c' r ok =>
       by_cases hc : c = c'
       · subst hc; simp [snapNext] at h
